@@ -267,8 +267,12 @@ def stepItem (cfg : Cfg) (s : MSt) : TItem → MSt
         if responsible p.2.2.2 ("", 0) (some p.2.2.1) == some node || responsible c ("", 0) (some p.2.2.1) == some node then []
         else [s!"request {p.1}: coordinator request for group {p.2.2.1} sent to a broker that is not its coordinator"]
       | Option.none => [s!"request {p.1}: coordinator request on an unknown broker client"])
+    -- "the broker that the current metadata names": a live broker client sits at the address the metadata gives for
+    -- its node (`_update_brokers` tells every existing broker client: what it has queued goes to the new address)
+    let newAddr := if c.clients.all (fun (cl : Int × Broker) => get? cl.1 c.brokers == some cl.2) then []
+      else ["a live broker client is not at the address the current metadata names for its broker"]
     let s1 := { s0 with pendingChecks := [], pendingRouting := [], pendingCoord := [],
-                        fails := s0.fails ++ newFails ++ newRouting ++ newCoord, staleFails := s0.staleFails ++ newStale ++ staleRouting }
+                        fails := s0.fails ++ newFails ++ newRouting ++ newCoord ++ newAddr, staleFails := s0.staleFails ++ newStale ++ staleRouting }
     { s1 with uns := s1.uns.map (fun (x : MUn) => match x.known with | Option.none => { x with known := some (c.brokers.map (·.1)) } | some _ => x) }
   | .attr k o idxs => setReq s k (fun q => { q with op := some o, idxs := idxs })
   | .uop u o => { s with loadUn := s.loadUn ++ [(o, u)] }
